@@ -280,10 +280,15 @@ def coindexing(ctx, res, member, err, dids, IDPAIRS, rule):
         # conditional re-index: the guard may only compare the selector
         # size with the size of the array it was computed from
         sel = sel_d[0] if sel_d else None
-        src = tm.method_recv(sel) if sel is not None and \
-            tm.callee_name(sel) == ".nonzero" else (
-                sel.args[1][0] if sel is not None and sel.args[1]
-                else None)
+        if sel is None:
+            src = None
+        elif sel.op == "cmp":
+            src = _nonzero_of(sel)           # boolean mask d != 0 / d > 0
+        elif tm.callee_name(sel) == ".nonzero":
+            src = tm.method_recv(sel)
+        else:
+            src = sel.args[1][0] if sel.op == "call" and sel.args[1] \
+                else None
         okc = False
         # `a.size != b.size`, or the truth value of their difference
         sides = None
